@@ -127,10 +127,21 @@ func (r *Run) Quick() bool { return r.Tier == "quick" }
 
 // Pick returns q in the quick tier and t in the thorough tier.
 func (r *Run) Pick(q, t int) int {
+	n := t
 	if r.Quick() {
-		return q
+		n = q
 	}
-	return t
+	// VERIF_SCALE (0 < f <= 1) shrinks every case count; used by the race
+	// detector check, which re-runs the other checks' workloads under -race.
+	if s := os.Getenv("VERIF_SCALE"); s != "" {
+		if f, err := strconv.ParseFloat(s, 64); err == nil && f > 0 && f <= 1 {
+			n = int(float64(n) * f)
+			if n < 1 && (q > 0 || t > 0) {
+				n = 1
+			}
+		}
+	}
+	return n
 }
 
 // Rule sets the human description of how cases are generated and what makes
